@@ -9,6 +9,7 @@ def run(ctx):
         ctx.validate("", "Trace_RxPath", "Trace_RxPath.cfg", ctx.replay, shards=1, label="replay (recorded trace)", extra_env=env)
         return ctx.finish()
     rxcommon.design(ctx, thorough)
+    rxcommon.reader_design(ctx)
     s1 = rxcommon.drive(ctx, "fail0", ["-fail", 60 if thorough else 8, "-failtimeout", 0],
                         "every byte offset x {EOF, reset, timeout}, read timeout 0 s", env=env)
     s2 = rxcommon.drive(ctx, "fail1", ["-fail", 12 if thorough else 3, "-failtimeout", 1, "-failstep", 7 if thorough else 23],
